@@ -192,13 +192,26 @@ func newDialectRW(msgs ...message.Message) (*dialect.ReadWriter, error) {
 
 // pickMsgs returns n seed-chosen shipped message types (all in the thorough tier when n<=0).
 func pickMsgs(r *vh.RNG, all []*msgInfo, n int) []*msgInfo {
-	if n <= 0 || n >= len(all) {
-		return all
+	// distinct message types of different dialects may share an id: a pick holds at most one type per id,
+	// so that it can always be turned into a dialect
+	seen := map[uint32]bool{}
+	out := make([]*msgInfo, 0, len(all))
+	order := make([]int, len(all))
+	for i := range order {
+		order[i] = i
 	}
-	p := r.Perm(len(all))
-	out := make([]*msgInfo, 0, n)
-	for _, i := range p[:n] {
+	if n > 0 && n < len(all) {
+		order = r.Perm(len(all))
+	}
+	for _, i := range order {
+		if seen[all[i].Msg.GetID()] {
+			continue
+		}
+		seen[all[i].Msg.GetID()] = true
 		out = append(out, all[i])
+		if n > 0 && len(out) >= n {
+			break
+		}
 	}
 	return out
 }
